@@ -500,16 +500,21 @@ def viAssign (v : Visitor) (a : Ast) : M Unit :=
 /-- `typeDeductionDepth` -/
 def typeDeductionDepth : Nat := 5
 
-/-- the retry loop of `ViRecursion`; returns the stable `iterationValue`, or `none` when the type of
-the step still changes after `typeDeductionDepth` rounds (`isStable == false`) -/
-def recursionRounds (v : Visitor) (a : Ast) (idx : Nat) : Nat → Ty → M (Option Ty)
+/-- the retry loop of `ViRecursion` (after the repair "the variable of a recursion is typed by the join of
+its initial value and its step"): the argument is `variableType`; every round clears the locals,
+re-declares the variable with it, types the step and joins the step's type into it. Returns the stable
+`variableType` (`Merge(step, variable) == variable`), or `none` when the join does not exist (`break`) or
+the type still grows after `typeDeductionDepth` rounds (`isStable == false`) -/
+def recursionRounds (te : TraitEnv) (v : Visitor) (a : Ast) (idx : Nat) : Nat → Ty → M (Option Ty)
   | 0, _ => M.pure none
-  | n+1, it =>
+  | n+1, vt =>
     M.bind clearLocals fun _ =>
-    M.bind (visitChildDecl v a 0 it) fun _ =>
+    M.bind (visitChildDecl v a 0 vt) fun _ =>
     M.bind (childType v a idx) fun r =>
     M.bind (expectTy "ViRecursion" r) fun nt =>
-    if nt == it then M.pure (some it) else recursionRounds v a idx n nt
+    match merge te nt vt with
+    | none => M.pure none
+    | some nv => if nv == vt then M.pure (some vt) else recursionRounds te v a idx n nv
 
 def viRecursion (Γ : Ctx) (v : Visitor) (a : Ast) : M Unit :=
   M.bind startScope fun _ =>
@@ -525,18 +530,20 @@ def viRecursion (Γ : Ctx) (v : Visitor) (a : Ast) : M Unit :=
     M.bind (kidM a idx) fun k => errFail EID.typesNotEqual k.lo
   | some true =>
     M.bind (expectTy "ViRecursion" itR) fun it0 =>
+    -- the variable holds the initial value first and the values of the step afterwards: it is
+    -- declared with the join of both types
+    match merge Γ.traits it0 initT with
+    | none => M.bind (kidM a idx) fun k => errFail EID.typesNotEqual k.lo
+    | some vt0 =>
     M.bind (modifySt fun s => { s with noWarn := s.noWarn + 1 }) fun _ =>
-    M.bind (recursionRounds v a idx typeDeductionDepth it0) fun stable =>
+    M.bind (recursionRounds Γ.traits v a idx typeDeductionDepth vt0) fun stable =>
     M.bind (modifySt fun s => { s with noWarn := s.noWarn - 1 }) fun _ =>
     match stable with
     | none => M.bind (kidM a idx) fun k => errFail EID.typesNotEqual k.lo   -- the recursion has no type
-    | some it =>
+    | some vt =>
     M.bind (if isFull then visitChild v a 2 else M.pure ()) fun _ =>
     M.bind (endScope a.lo) fun _ =>
-    -- the result is the initial value when no step is made: its type takes part in the result type
-    match merge Γ.traits it initT with
-    | none => M.bind (kidM a idx) fun k => errFail EID.typesNotEqual k.lo
-    | some m => setCur (.ty m)
+    setCur (.ty vt)
 
 /-- collect `ChildTypeDebool(iter, child, eid)` for the children from index `i` on -/
 def deboolAll (v : Visitor) (a : Ast) (eid : Nat) : Nat → Nat → M (List Ty)
